@@ -976,6 +976,9 @@ func positions(x string) []string {
 			out = append(out, fmt.Sprintf("(%s) %s a", x, op), fmt.Sprintf("a %s (%s)", op, x))
 		}
 		out = append(out, "("+x+") + 1", "1 + ("+x+")", "("+x+")", "-("+x+")", "clamp_min(a, scalar("+x+"))", "sum(topk(1, "+x+")) + 1")
+		// next to a narrower selector of the same metric (the default optimizers rewrite it
+		// into a filter over the broader select before the fallback decision is taken)
+		out = append(out, fmt.Sprintf(`(%s) + a{l="0"}`, x), fmt.Sprintf(`a{l="0"} or (%s)`, x))
 	case parser.ValueTypeScalar:
 		out = append(out, "vector("+x+")", "sum(vector("+x+"))", "topk("+x+", a)", "quantile("+x+", a)", "("+x+") + a", "a + ("+x+")", "("+x+")", "-("+x+")",
 			"clamp_min(a, "+x+")", "clamp(a, "+x+", "+x+")", "histogram_quantile("+x+", a)", "("+x+") + 1", "1 > bool ("+x+")", "round(a, "+x+")")
@@ -1044,6 +1047,30 @@ func c08Once(q string, data []core.SeriesSpec, w core.Window) (ran, nontrivial b
 		}
 		if s, d := core.Diff(o.Res, f.Res, false); s != "" && !(hasK(q) && tieEqual(o.Res, f.Res)) {
 			return true, true, "fallback-off:" + s, "result differs from the one with fallback enabled: " + d
+		}
+	}
+	// fallback enabled under the default and all optimizers: the same path, the same answer
+	for _, opt := range []string{"", "all"} {
+		oc := &core.Case{Q: q, Data: data, W: w, O: core.Opts{Optimizers: opt, Fallback: true}}
+		oo := core.RunEngine(oc, st)
+		name := opt
+		if name == "" {
+			name = "default"
+		}
+		if oo.Res.CreateErr != "" {
+			return true, false, "fallback-on:rejected", fmt.Sprintf("with the %s optimizers and fallback enabled creation fails: %s", name, oo.Res.CreateErr)
+		}
+		if s, d := engineSymptom(oo); s != "" {
+			return true, false, s, fmt.Sprintf("with the %s optimizers: %s", name, d)
+		}
+		if oo.IsPromQuery != o.IsPromQuery {
+			return true, false, "fallback:depends-on-optimizers", fmt.Sprintf("query object is %s with the %s optimizers and %s without optimizers", oo.QueryType, name, o.QueryType)
+		}
+		if s, d := core.Diff(ref, oo.Res, false); s != "" && !(hasK(q) && tieEqual(ref, oo.Res)) {
+			if oo.IsPromQuery {
+				return true, true, "fallback-on:" + s, fmt.Sprintf("with the %s optimizers: %s", name, d)
+			}
+			return true, true, s, fmt.Sprintf("with the %s optimizers: %s", name, d)
 		}
 	}
 	// the same two engines with a DebugWriter (every created plan is explained into it)
